@@ -252,7 +252,9 @@ pub fn check_typed(tree: &'static Node<'static, RigDev>, c: &Case) -> Result<(),
         let text = ELEMS[c.elems[i]].text.as_bytes();
         match Tokenizer::new_params(text).next() {
             Some(Ok(t)) => u8::try_from(t).map(|v| v as i64).map_err(|e| e.get_code()),
-            _ => engine_failure("C06 element does not lex in isolation"),
+            // the library's lexer does not even lex the element on its own: the comparison below
+            // reports it (no real conversion result equals this sentinel)
+            _ => Err(i16::MIN),
         }
     };
     let mut exp: Vec<Pull> = vec![];
